@@ -255,6 +255,27 @@ func run(c *engine.Ctx) {
 			r.one("unquoted", "  "+kw+"\n\t"+u+"\n{ }", kw, u, true)
 		}
 	}
+	// escape sequences: every string of <= 5 symbols over {a, blank, \\\\, \\n, \\t, \\"} in one double-quoted piece
+	syms := []string{"a", " ", "\\\\", "\\n", "\\t", "\\\""}
+	var esc func(src string, n int)
+	esc = func(src string, n int) {
+		if c.Expired() {
+			return
+		}
+		if n > 0 {
+			unspec := strings.Contains(src, " \\n") || strings.Contains(src, "\\n ") || strings.Contains(src, "\\t\\n") || strings.Contains(src, "\\n\\t")
+			if val, ok := yangstr.DecodeDouble(src, 0); ok && !unspec {
+				r.one("esc", "  description \""+src+"\";", "description", val, true)
+			}
+		}
+		if n == 5 {
+			return
+		}
+		for _, sy := range syms {
+			esc(src+sy, n+1)
+		}
+	}
+	esc("", 0)
 	c.Sample(map[string]any{"statement": "description 'x\\\\n' /*c*/ + // c\n \"q\\\"r\";", "expected": "x\\\\nq\"r"})
 }
 
